@@ -53,7 +53,8 @@ P = {
             "casings); optional Content-Type + body (json/form/yaml/text/unknown, valid, invalid and empty bodies); in a third of the "
             "requests the client itself sends a header (any casing, one or two lines) or a cookie under a name the rule's pipeline "
             "sets; requests are aimed at the rule's conditions in 60%.  Per request the Envoy conveyance is drawn: body in `body` "
-            "(Envoy's default) / `raw_body` / both; request target as documented (query inside `path`, `query` empty) or in separate "
+            "(Envoy's default) / `raw_body` / both; on the HTTP side sized (Content-Length) or streamed (Transfer-Encoding: chunked); "
+            "request target as documented (query inside `path`, `query` empty) or in separate "
             "fields.  The same request goes to all three entry points.  Corpus (35 cases: witnesses of C13-F1..F9, F11, F3b, of the "
             "seeded change C13-1 and of the audit's blind spots) first.  Stream deployed: one logical request (method, scheme, host, "
             "path of 1-3 pool segments, one of 31 queries) sent to a decision service directly and, described by X-Forwarded-Method/"
